@@ -23,16 +23,22 @@ def generate(seed, tier):
     spec = gen_instance(rng, max_jobs=6 if big else 4, max_machines=5 if big else 4, max_ops=6 if big else 4,
                         positive=True if names else None)
     faulty = rng.random() < 0.4
-    ops = gen_dispatch_ops(rng, n_ops(spec), p_query=0.1, p_invalid=0.08 if faulty else 0.0,
-                           p_reset=0.04 if faulty else 0.0, episodes=2 if rng.random() < 0.1 else 1)
-    return {"prop": PROP, "cfg": {"instance": spec, "filter": names, "filter_style": style}, "ops": ops}
+    sparse = rng.random() < 0.3
+    ops = gen_dispatch_ops(rng, n_ops(spec), p_query=0.0 if sparse else 0.1, p_invalid=0.08 if faulty else 0.0,
+                           p_reset=0.04 if faulty else 0.0, episodes=rng.randint(2, 3) if (sparse or rng.random() < 0.1) else 1,
+                           stop_early=0.0 if sparse else 0.1)
+    # "sparse": the user looks at the clock only now and then (a seeded subset of the steps, and whenever the
+    # schedule is complete); monotonicity between the observed states still has to hold
+    return {"prop": PROP, "cfg": {"instance": spec, "filter": names, "filter_style": style,
+                                  "observe": [int(rng.random() < 0.15) for _ in ops] if sparse else None}, "ops": ops}
 
 
 class H(Hooks):
-    def __init__(self, ops=()):
+    def __init__(self, ops=(), observe=None):
         self.prev_now = None
         self.prev_completed = None
         self.ops = ops
+        self.observe_at = observe
 
     def observe(self, w):
         now = w.call_query("current_time")
@@ -45,6 +51,13 @@ class H(Hooks):
             # let the user's query burst be the first thing asked in the new state; the clock is read after it
             # (monotonicity between the observed states still has to hold: <= is transitive)
             ctx.probe("clock_read_after_other_queries")
+            return
+        if self.observe_at is not None and kind != "reset" and not m.is_complete() and not (i < len(self.observe_at) and self.observe_at[i]):
+            ctx.probe("state_not_observed_sparse_mode")
+            return
+        if self.observe_at is not None and kind == "reset":
+            # nobody looks at the clock right after the reset; the comparison simply restarts
+            self.prev_now, self.prev_completed = None, None
             return
         now, comp = self.observe(w)
         if kind == "reset":
@@ -68,8 +81,9 @@ class H(Hooks):
 
 def execute(case, ctx):
     w = DWorld(case["cfg"], ctx)
-    h = H(case["ops"])
-    h.prev_now, h.prev_completed = h.observe(w)
+    h = H(case["ops"], case["cfg"].get("observe"))
+    if case["cfg"].get("observe") is None:
+        h.prev_now, h.prev_completed = h.observe(w)
     run_ops(w, case["ops"], h)
 
 
